@@ -35,7 +35,7 @@ DOC_TABLE = [(None, '1.60MiB'), (' ', '1.60 MiB'), ('%.0', '2MiB'), ('%.1', '1.6
 
 
 def bounds(tier):
-    return {'units': len(UNITS), 'numbers': NUMS, 'specifiers': len(list(specs())), 'grid': len(GRID)}
+    return {'units': len(UNITS), 'numbers': NUMS if tier == 'quick' else NUMS_T, 'specifiers': len(list(specs(tier))), 'grid': len(GRID)}
 
 
 def case_variants(u):
